@@ -25,6 +25,12 @@ MUT = {
  "m21": ("pkg/factory/config.go", 'yaml:"cidr"      valid:"required,cidr"', 'yaml:"cidr"      valid:"required"'),
  "m22": ("pkg/factory/factory.go", "\t\treturn nil, errors.Errorf(\"cfg.Pfcp.NodeID[%s] can't be resolved\", cfg.Pfcp.NodeID)", "\t\tlogger.CfgLog.Warnf(\"cfg.Pfcp.NodeID[%s] can't be resolved\", cfg.Pfcp.NodeID)"),
  "m23": ("pkg/factory/config.go", 'valid:"required,in(N3|N9)"', 'valid:"required,in(N3|N9|N6)"'),
+ "m24": ("internal/forwarder/gtp5g.go", "\t\t\t\t\t\tType:  gtp5gnl.QER_MBR_UL_HIGH32,\n\t\t\t\t\t\tValue: nl.AttrU32(ul >> 8),\n\t\t\t\t\t},\n\t\t\t\t\t{\n\t\t\t\t\t\tType:  gtp5gnl.QER_MBR_UL_LOW8,\n\t\t\t\t\t\tValue: nl.AttrU8(ul),\n\t\t\t\t\t},\n\t\t\t\t\t{\n\t\t\t\t\t\tType:  gtp5gnl.QER_MBR_DL_HIGH32,\n\t\t\t\t\t\tValue: nl.AttrU32(dl >> 8),", "XX"),
+ "m25": ("internal/forwarder/gtp5g.go", "\tif v.HasDLVOL() {\n\t\tattrs = append(attrs, nl.Attr{\n\t\t\tType:  gtp5gnl.URR_VOLUME_QUOTA_DVOL,", "\tif v.HasDLVOL() {\n\t\tattrs = append(attrs, nl.Attr{\n\t\t\tType:  gtp5gnl.URR_VOLUME_QUOTA_UVOL,"),
+ "m26": ("internal/forwarder/gtp5g.go", "\t\tswapSrcDst := (srcIf == ie.SrcInterfaceAccess)", "\t\tswapSrcDst := (srcIf == ie.SrcInterfaceCore)"),
+ "m27": ("internal/forwarder/gtp5g.go", "\toid := gtp5gnl.OID{lSeid, farid}\n\treturn gtp5gnl.UpdateFAROID", "\toid := gtp5gnl.OID{lSeid & 0xffffffff, farid}\n\treturn gtp5gnl.UpdateFAROID"),
+ "m28": ("internal/forwarder/gtp5g.go", "\tif rptTrig.PERIO() {\n\t\tif measurePeriod <= 0 {", "\tif rptTrig.VOLTH() {\n\t\tif measurePeriod <= 0 {"),
+ "m29": ("internal/forwarder/gtp5g.go", "\tg.ps.DelPeriodReportTimer(lSeid, v)\n", ""),
 }
 name = sys.argv[1]
 f, old, new = MUT[name]
